@@ -90,14 +90,14 @@ def jobs_for(ctx):
             for p1 in ops2:
                 if p0 <= p1:
                     for ini in ("a", "p107", "e", "g"):
-                        J.append((2, ini, [p0, p1], None, 2000))
+                        J.append((2, ini, [p0, p1], None, 300))
         for a in "ckri":
             for b in "ckri":
                 for c in "ckri":
                     for ini in ("a", "p107"):
-                        J.append((3, ini, [a, b, c], None, 3000))
+                        J.append((3, ini, [a, b, c], None, 1000))
         for p in [["kr", "c", "i"], ["k", "ci", "k"], ["kr", "k", "i"]]:
-            J.append((3, "a", p, None, 30000)); J.append((3, "a", p, 0, 30000))
+            J.append((3, "a", p, None, 10000)); J.append((3, "a", p, 0, 10000))
     return J
 
 
